@@ -6,6 +6,7 @@ import (
 	"encoding/binary"
 	"errors"
 	"io"
+	"sort"
 )
 
 type woffEntry struct {
@@ -90,6 +91,21 @@ func parseWOFF(file Resource, offset uint32, relativeOffset bool) (*Loader, erro
 		}
 
 		fontParser.tables[entry.Tag] = sec
+	}
+
+	// the compressed tables must not overlap (nor be the same block): each one is
+	// inflated on its own, up to a thousand times its size
+	compressed := make([]tableSection, 0, len(fontParser.tables))
+	for _, sec := range fontParser.tables {
+		if sec.length != 0 && sec.length < sec.zLength {
+			compressed = append(compressed, sec)
+		}
+	}
+	sort.Slice(compressed, func(i, j int) bool { return compressed[i].offset < compressed[j].offset })
+	for i := 1; i < len(compressed); i++ {
+		if prev := compressed[i-1]; uint64(compressed[i].offset) < uint64(prev.offset)+uint64(prev.length) {
+			return nil, errors.New("invalid WOFF file: overlapping compressed tables")
+		}
 	}
 
 	return fontParser, nil
